@@ -61,7 +61,8 @@ func validDNA(s []byte) bool {
 }
 
 func checkC14(c C14Case, o *Obs) error {
-	seq := window(c.Seq) // valid bases follow the sequence in its backing array
+	// either an exact-capacity slice (nil when empty) or a window with valid bases behind it
+	seq := window(c.Seq, (len(c.Seq)+len(c.Dst)+c.Cut+c.Spare)%2 == 0)
 	seqCopy := bytes.Clone(seq)
 	o.Class("kind:" + c.Kind)
 	switch c.Kind {
@@ -242,7 +243,7 @@ func exhaustiveC14(thorough bool, emit func(C14Case) bool) {
 	for n := 0; n <= maxLen; n++ {
 		for _, p := range pats {
 			s := []byte(strings.Repeat(p, n/len(p)+1)[:n])
-			if !emit(C14Case{Kind: "frames", Seq: s}) || !emit(C14Case{Kind: "translate", Seq: s, Cut: n / 6}) {
+			if !emit(C14Case{Kind: "frames", Seq: s}) || !emit(C14Case{Kind: "frames", Seq: s, Spare: 1}) || !emit(C14Case{Kind: "translate", Seq: s, Cut: n / 6}) {
 				return
 			}
 		}
